@@ -7,7 +7,7 @@ from props.C14 import canon_py
 RULE = ("profile buffers of 0..200 rows x 1..12 columns with clock columns in any position (also several, also none), every "
         "null-pattern class (first row null, runs of nulls, all null), capture periods 1..1440 and month/year roll-overs, rows of "
         "wrong width, through parse_entries and through parse_bytes (standard encoding from the extracted encoder); all 256 "
-        "access-mode bytes; object lists with any attribute/method counts and optional selector lists, unknown class ids. "
+        "access-mode bytes; one parser object used for two buffers in a row (the second result must equal a fresh parser's); object lists with any attribute/method counts and optional selector lists, unknown class ids. "
         "non-trivial = distinct inputs that produced a value")
 ASSUMPTIONS = ["datetime + timedelta(minutes) is modelled with the proleptic Gregorian day count and compared with CPython on every run",
                "with more than one clock column the running timestamp is shared between the columns (the model and the theorem state exactly that)"]
@@ -43,6 +43,14 @@ def impl(op, a):
         if op == "profile_parse_entries":
             p, objs = parser(a[0], a[1])
             return canon_rows(p.parse_entries(a[2]), objs)
+        if op == "profile_parse_entries_reused":
+            # one parser object used for two buffers: the second result
+            p, objs = parser(a[0], a[1])
+            try:
+                p.parse_entries(a[2])
+            except Exception:
+                pass
+            return canon_rows(p.parse_entries(a[3]), objs)
         if op == "profile_parse_bytes":
             p, objs = parser(a[0], a[1])
             return canon_rows(p.parse_bytes(a[2]), objs)
@@ -166,12 +174,35 @@ def run(ctx):
                 if not clock[c]:
                     if cell is None or lib.canon(cell[1]) != lib.canon(canon_py(x)):
                         ctx.fail("value_not_transmitted_value", dict(case, row=i, col=c), lib.v_text(canon_py(x))[:100], lib.v_text(cell)[:100])
+    # a parser object used for several buffers: every buffer is interpreted on its own (what was seen in an earlier buffer -
+    # the running timestamp in particular - does not leak into the next one)
+    by_shape = {}
+    for clock, period, rows in bufs:
+        by_shape.setdefault((tuple(clock), period), []).append(rows)
+    pairs = []
+    for (clock, period), lst in by_shape.items():
+        for rows in lst:
+            if all(len(row) == len(clock) for row in rows):
+                first = [[ts_bytes(r) if c else 1 for c in clock]] * 2
+                pairs.append((list(clock), period, first, rows))
+                pairs.append((list(clock), period, rows, rows))
+    for clock, period, first, rows in pairs:
+        fresh = impl("profile_parse_entries", [clock, period, rows])
+        again = impl("profile_parse_entries_reused", [clock, period, first, rows])
+        ctx.tried("parser_reused", key=lib.v_text([clock, period, first, rows])[:300])
+        if lib.canon(fresh) != lib.canon(again):
+            ctx.fail("parser_state_leaks_between_buffers", {"clock": clock, "period": period, "first_rows": lib.v_text(first)[:1500], "rows": lib.v_text(rows)[:1500]},
+                     lib.v_text(fresh)[:300], lib.v_text(again)[:300])
     ctx.sample({"kind": "search", "clock": bufs[3][0], "period": bufs[3][1], "rows": lib.v_text(bufs[3][2])[:200]})
 
 
 def replay(ctx, rp):
     c = rp["case"]
     rows = lib.v_parse(c["rows"])
+    if "first_rows" in c:
+        fresh = impl("profile_parse_entries", [c["clock"], c["period"], rows])
+        again = impl("profile_parse_entries_reused", [c["clock"], c["period"], lib.v_parse(c["first_rows"]), rows])
+        return lib.canon(fresh) != lib.canon(again)
     got = impl("profile_parse_entries", [c["clock"], c["period"], rows])
     if not all(len(row) == len(c["clock"]) for row in rows):
         return not isinstance(got, E)
